@@ -1,22 +1,17 @@
 /-
 C10 — which glyphs a subset contains, independently of the iteration order: the glyph list when
-`SubsetGsub` returns is exactly the closure of the requested glyphs under the GSUB rules, and the
-final list exactly the closure of that under composite components.
+is exactly the closure of the requested glyphs under the GSUB rules and composite components.
 -/
 import SfntV.Proofs.SubsetGsubRules
-import SfntV.Proofs.SubsetMain
 
 namespace SfntV.Subset
 
-/-- closure of the requested glyphs under the GSUB rules -/
-inductive TextReach (glyphs : List Gid) (rules : List Rule) : Gid → Prop
-  | base {g : Gid} : g ∈ glyphs → TextReach glyphs rules g
-  | rule {r : Rule} {o : Gid} : r ∈ rules → (∀ i ∈ r.ins, TextReach glyphs rules i) → o ∈ r.outs →
-      TextReach glyphs rules o
-
-/-- closure of the text glyphs under "is a component of" (TrueType outlines only) -/
+/-- closure of the requested glyphs under the GSUB rules and (TrueType outlines only) under
+"is a component of" -/
 inductive Reach (f : Font) (glyphs : List Gid) (rules : List Rule) : Gid → Prop
-  | text {g : Gid} : TextReach glyphs rules g → Reach f glyphs rules g
+  | base {g : Gid} : g ∈ glyphs → Reach f glyphs rules g
+  | rule {r : Rule} {o : Gid} : r ∈ rules → (∀ i ∈ r.ins, Reach f glyphs rules i) → o ∈ r.outs →
+      Reach f glyphs rules o
   | comp {p c : Gid} : f.isCFF = false → Reach f glyphs rules p → c ∈ (f.glyph p).comps →
       Reach f glyphs rules c
 
@@ -134,58 +129,19 @@ theorem gsubLoop_sound (all : List Rule) (Q : Gid → Prop)
         exact hall w (hsp.2.1 w hw).1
     · injection hr with hr; subst hr; exact hsound
 
-/-- everything `SubsetGsub` does, in one statement: the state `s1` it returns is closed under the
-rules, contains only glyphs reachable from the requested ones, and the rebuilt lookups are the
-original rule lists filtered and translated by `transRule s1` -/
-theorem subsetGsub_full {o : Order} {s s1 : St} {l : Layout GsubSub} {lay : Layout GsubOut}
-    (h : Inv s) (hp : ∀ x, (o.rules x).Perm x) (hr : subsetGsub o s l = some (s1, lay)) :
-    Inv s1 ∧ Ext s s1 ∧ (∀ r ∈ rulesOf l, Fires s1 r) ∧
-    (∀ g ∈ s1.glyphs, TextReach s.glyphs (rulesOf l) g) ∧
-    lay.features = l.features ∧
-    lay.lookups.map (fun subs => subs.flatMap outRules) =
-      l.lookups.map fun subs => (subs.flatMap rulesOfSub).filterMap (transRule s1) := by
-  have hr0 := hr
-  unfold subsetGsub at hr
-  simp only at hr
-  split at hr
-  · cases hr
-  · rename_i t ht
-    injection hr with hr
-    have hg := gsubLoop_good _ _ _ _ h ht
-    have h1 : s1 = (subLookups t l.lookups).1 := (congrArg Prod.fst hr).symm
-    have h2 : lay = ⟨l.features, (subLookups t l.lookups).2⟩ := (congrArg Prod.snd hr).symm
-    obtain ⟨t', _, _, _, _⟩ := subsetGsub_closed h hp hr0
-    have hwork : ∀ w ∈ (o.rules (rulesOf l)).map (fun r => (Int.ofNat (missing s.newGid r.ins), r)),
-        w.1 = Int.ofNat (missing s.newGid w.2.ins) ∧ w.2 ∈ o.rules (rulesOf l) := by
-      intro w hw
-      obtain ⟨r, hrm, rfl⟩ := List.mem_map.1 hw
-      exact ⟨rfl, hrm⟩
-    have hli : LI s ((o.rules (rulesOf l)).map fun r => (Int.ofNat (missing s.newGid r.ins), r))
-        (o.rules (rulesOf l)) :=
-      ⟨fun w hw => (hwork w hw).1, fun r hrm => Or.inl ⟨_, List.mem_map.2 ⟨r, hrm, rfl⟩⟩⟩
-    have hclosed : ∀ r ∈ rulesOf l, Fires t r := by
-      intro r hrm
-      exact gsubLoop_closed (o.rules (rulesOf l)) _ _ _ t h hli ht r ((hp (rulesOf l)).mem_iff.2 hrm)
-    have hsound : ∀ g ∈ t.glyphs, TextReach s.glyphs (rulesOf l) g := by
-      apply gsubLoop_sound (o.rules (rulesOf l)) (TextReach s.glyphs (rulesOf l)) _ _ s _ t h
-        (fun w hw => (hwork w hw).1) (fun w hw => (hwork w hw).2)
-        (fun g hg => TextReach.base hg) ht
-      intro r hrm hins o' ho'
-      exact TextReach.rule ((hp (rulesOf l)).mem_iff.1 hrm) hins ho'
-    have hl := subLookups_closed t l.lookups (by
-      intro r hrm; exact hclosed r (by simpa [rulesOf] using hrm))
-    have hst : s1 = t := by rw [h1, hl.1]
-    subst hst
-    refine ⟨hg.1, hg.2, hclosed, hsound, by rw [h2], ?_⟩
-    rw [h2]; exact hl.2
-
-theorem textReach_mem {s1 : St} {glyphs : List Gid} {rules : List Rule} (h1 : Inv s1)
-    (hb : ∀ g ∈ glyphs, g ∈ s1.glyphs) (hc : ∀ r ∈ rules, Fires s1 r) {g : Gid}
-    (hg : TextReach glyphs rules g) : g ∈ s1.glyphs := by
-  induction hg with
-  | base hm => exact hb _ hm
-  | rule hr _ ho ih =>
-    have := hc _ hr (fun i hi => (h1.has_iff i).2 (ih i hi)) _ ho
-    exact (h1.has_iff _).1 this
+/-- `addGsubGlyphs` appends only outputs of rules whose inputs are present: any property `Q` of
+glyphs that is closed under the rules is kept -/
+theorem gsubClose_sound {ro : List Rule → List Rule} {s t : St} {l : Layout GsubSub} (Q : Gid → Prop)
+    (h : Inv s) (hp : ∀ x, (ro x).Perm x)
+    (hQ : ∀ r ∈ rulesOf l, (∀ i ∈ r.ins, Q i) → ∀ o ∈ r.outs, Q o)
+    (hq : ∀ g ∈ s.glyphs, Q g) (hr : gsubClose ro s l = some t) : ∀ g ∈ t.glyphs, Q g := by
+  have hwork : ∀ w ∈ (ro (rulesOf l)).map (fun r => (Int.ofNat (missing s.newGid r.ins), r)),
+      w.1 = Int.ofNat (missing s.newGid w.2.ins) ∧ w.2 ∈ ro (rulesOf l) := by
+    intro w hw
+    obtain ⟨r, hrm, rfl⟩ := List.mem_map.1 hw
+    exact ⟨rfl, hrm⟩
+  exact gsubLoop_sound (ro (rulesOf l)) Q
+    (fun r hrm => hQ r ((hp (rulesOf l)).mem_iff.1 hrm)) _ s _ t h
+    (fun w hw => (hwork w hw).1) (fun w hw => (hwork w hw).2) hq hr
 
 end SfntV.Subset
